@@ -711,7 +711,24 @@ def _validate(ob, enc, out, model, res, cache, p):
             if not _robust(t, env, getattr(ob, 'validate_negated', False)):
                 res['validation_skipped'] += 1
                 return
-        conc = NumCtx(ob, {k: v for k, v in env.items() if '!' not in k}, cache)._run()
+        import signal
+
+        def _alarm(sig, frm):
+            raise _ReplayTimeout()
+        try:
+            old_h = signal.signal(signal.SIGALRM, _alarm)
+            signal.alarm(30)
+        except (ValueError, AttributeError):
+            old_h = None
+        try:
+            conc = NumCtx(ob, {k: v for k, v in env.items() if '!' not in k}, cache)._run()
+        finally:
+            try:
+                signal.alarm(0)
+                if old_h is not None:
+                    signal.signal(signal.SIGALRM, old_h)
+            except (ValueError, AttributeError):
+                pass
     except Exception as e:
         res['validation_skipped'] += 1
         res['notes'].append('validation: concrete run failed (%s: %s)' % (type(e).__name__, str(e)[:100]))
@@ -827,12 +844,44 @@ def _handle_witness(ob, enc, c, ct, zc, zbase, v, label, res, cache):
             res['inconclusive'].append({'label': label, 'reason': entry['reason'], 'unreproduced_exact': True})
 
 
+class _ReplayTimeout(Exception):
+    pass
+
+
 def replay_claim(ob, env, label, cache=None):
-    """Evaluate the claim `label' numerically on the real code at env."""
+    """Evaluate the claim `label' numerically on the real code at env (under a wall-clock limit: a witness can drive
+    the real numerics -- root finders, ODE integrators -- into very long loops)."""
+    import signal
+    limit = int(getattr(ob, 'replay_limit_s', 60))
+
+    def _alarm(sig, frm):
+        raise _ReplayTimeout()
+    old = None
+    try:
+        old = signal.signal(signal.SIGALRM, _alarm)
+        signal.alarm(limit)
+    except (ValueError, AttributeError):
+        old = None
+    try:
+        return _replay_claim(ob, env, label, cache)
+    except _ReplayTimeout:
+        return {'reproduced': False, 'detail': 'replay on the real code did not finish within %ds' % limit}
+    finally:
+        try:
+            signal.alarm(0)
+            if old is not None:
+                signal.signal(signal.SIGALRM, old)
+        except (ValueError, AttributeError):
+            pass
+
+
+def _replay_claim(ob, env, label, cache=None):
     cache = cache if cache is not None else {}
     try:
         cx = NumCtx(ob, env, cache)
         ob.claims(cx)
+    except _ReplayTimeout:
+        raise
     except Exception as e:
         handler = getattr(ob, 'replay_exception', None)
         if handler is not None:
